@@ -1413,6 +1413,8 @@ def norm_app(cname, args, kwargs=None):
         return T.ZERO  # broadcast view: an array of zeros is the value 0
     if cname in ("ones", "ones_like"):
         return T.ONE  # broadcast view: an array of ones is the value 1
+    if cname in ("full", "full_like") and len(args) >= 2:
+        return args[1]  # broadcast view: an array filled with v is the value v (its dtype is C04.alloc's business)
     return ("f", cname, tuple(args), tuple(sorted(kw.items())))
 
 
